@@ -7,7 +7,7 @@
    binomial distribution function.  C04_quantile is therefore a statement about
    choose with exact arithmetic (label: partial with respect to float64
    rounding; the implementation is compared within a band on every run). *)
-From VF.C04 Require Import Model ProofsSearch ProofsBinom ProofsChoose ProofsProtocol.
+From VF.C04 Require Import Model ProofsSearch ProofsBinom ProofsChoose ProofsProtocol ProofsManager.
 From Coq Require Import Lia.
 Local Open Scope Z_scope.
 
@@ -199,6 +199,38 @@ Theorem C04_priority_max :
 Proof. exact accepted_priority_is_max. Qed.
 Print Assumptions C04_priority_max.
 
+(* ---- prover side: the sortition manager -------------------------------------- *)
+(* Over all histories of ClearStepView / isProposer / isValidator / GetStepView
+   (validator queries for the vote steps, as Voter.vote issues them): every view
+   returned for (round, index, step) is the one computed for exactly that round -
+   fresh_proposer / fresh_validator are by definition VrfSortition on
+   MakeM(seed(round), step, index) with that round's stake, total and threshold
+   (or the seat-less placeholder of an offline / non-chamber validator). *)
+Theorem C04_manager_views_bound :
+  forall (SK Proof : Type) (evaluate : SK -> list Z -> Z * Proof) (keccak : list Z -> Z) (sk : SK)
+         (env_stake : Z -> bool -> Z -> stake_info) (env_seed : Z -> Z -> option Z)
+         ops o flag v,
+    Forall valid_op ops -> valid_op o ->
+    snd (mstep SK Proof evaluate keccak sk env_stake env_seed
+               (fst (mrun SK Proof evaluate keccak sk env_stake env_seed (mgr_init Proof) ops)) o)
+    = (flag, Some v) ->
+    view_for_query SK Proof evaluate keccak sk env_stake env_seed o = Some v.
+Proof. exact manager_views_bound. Qed.
+Print Assumptions C04_manager_views_bound.
+
+(* the proposer query is a pure function of (round, index), whatever came before *)
+Theorem C04_manager_proposer_pure :
+  forall (SK Proof : Type) (evaluate : SK -> list Z -> Z * Proof) (keccak : list Z -> Z) (sk : SK)
+         (env_stake : Z -> bool -> Z -> stake_info) (env_seed : Z -> Z -> option Z)
+         ops r i,
+    Forall valid_op ops ->
+    snd (mstep SK Proof evaluate keccak sk env_stake env_seed
+               (fst (mrun SK Proof evaluate keccak sk env_stake env_seed (mgr_init Proof) ops))
+               (OProposer r i))
+    = proposer_answer SK Proof evaluate keccak sk env_stake env_seed r i.
+Proof. exact manager_proposer_pure. Qed.
+Print Assumptions C04_manager_proposer_pure.
+
 (* ---- non-vacuity -------------------------------------------------------------- *)
 (* a monotone predicate with its least index, found by search *)
 Example C04_nonvacuous_search :
@@ -295,3 +327,29 @@ Example C04_nonvacuous_MakeM :
   make_m 1 2 3 <> make_m 1 3 2 /\ length (make_m (2 ^ 256 - 1) (2 ^ 32 - 1) 0) = 40%nat.
 Proof. split; [vm_compute; discriminate|vm_compute; reflexivity]. Qed.
 Print Assumptions C04_nonvacuous_MakeM.
+
+(* a history with a straggling older round after the clear for the next one:
+   clear(8); validator(7,0,2); validator(8,0,2); proposer(7,0); proposer(8,0):
+   all four queries return a view with seats, and the views of rounds 7 and 8
+   differ (so a cache that forgot the round would be wrong) *)
+Definition toy_env_stake (r : Z) (isprop : bool) (lb : Z) : stake_info :=
+  mkSI 30 50 (if isprop then 26 else 40) kind_chamber 1 false.
+Definition toy_env_seed (r lb : Z) : option Z := Some (r * 1000003 + lb).
+Definition toy_hist : list mop :=
+  [OClear 8; OValidator 7 0 2; OValidator 8 0 2; OProposer 7 0; OProposer 8 0].
+
+Example C04_nonvacuous_manager :
+  Forall valid_op toy_hist /\
+  match snd (mrun Z (Z * list Z) toy_eval toy_keccak 5 toy_env_stake toy_env_seed
+                  (mgr_init (Z * list Z)) toy_hist) with
+  | [_; (true, Some v7); (true, Some v8); (true, Some p7); (true, Some p8)] =>
+    v_proof _ v7 <> v_proof _ v8 /\ v_proof _ p7 <> v_proof _ p8 /\
+    (0 <? v_sub _ v7) && (0 <? v_sub _ v8) && (0 <? v_sub _ p7) && (0 <? v_sub _ p8) = true
+  | _ => False
+  end.
+Proof.
+  split.
+  - repeat constructor; cbn; discriminate.
+  - vm_compute. repeat split; discriminate || reflexivity.
+Qed.
+Print Assumptions C04_nonvacuous_manager.
